@@ -294,15 +294,21 @@ def h_misc(cfg):
 
         def p():
             yield env.timeout(tc)
-            for name, cls in (('all', AllOf), ('any', AnyOf)):
-                c = cls(env, [])
-                v = yield c
-                res[name] = (env.now, v)
+            for name, cls, empty in (('all', AllOf, []), ('any', AnyOf, []), ('all-iter', AllOf, iter([])),
+                                     ('any-gen', AnyOf, (x for x in [])), ('all-tuple', AllOf, ())):
+                c = cls(env, empty)
+                guard = env.timeout(1)
+                got = yield c | guard
+                res[name] = (env.now, c.value if c.triggered else None, c.triggered)
 
         env.process(p())
         env.run()
-        for name in ('all', 'any'):
-            check('c05.empty-immediate', name in res and eq(res[name][0], tc) and len(list(res[name][1].keys())) == 0, name)
+        done = 0
+        for name in ('all', 'any', 'all-iter', 'any-gen', 'all-tuple'):
+            ok = name in res and res[name][2] and len(list(res[name][1].keys())) == 0
+            check('c05.empty-immediate', ok and eq(res[name][0], tc + done), name)
+            if not (name in res and res[name][2]):
+                done += 1
         cover('empty')
     cover('nontrivial')
 
